@@ -2,10 +2,10 @@
 # runs every thorough tier sequentially (used with `vp run`), summarising exit codes and times
 cd "$(dirname "$0")/.."
 sh setup.sh >/dev/null 2>&1
-: > thorough-summary.txt
+: >> thorough-summary.txt
 for p in "$@"; do
   s=$(date +%s)
-  timeout 5400 ./check $p --tier thorough > thorough-$p.log 2>&1
+  timeout 1500 ./check $p --tier thorough > thorough-$p.log 2>&1
   rc=$?
   e=$(date +%s)
   echo "$p exit=$rc secs=$((e-s))" >> thorough-summary.txt
